@@ -564,6 +564,42 @@ func init() {
 					}
 				}
 			}
+			// the same container shown in several holes of one template (each hole is its string form, every time)
+			{
+				vr := func(n string) N { return N{"k": "var", "n": n, "pp": false} }
+				st := func(e N) N { return N{"k": "expr", "e": e} }
+				hole := func(pct bool, body ...N) N { return N{"k": "hole", "pct": pct, "body": body} }
+				litp := func(cs ...string) N { return N{"k": "lit", "c": cs} }
+				arr := func(xs ...N) N {
+					if xs == nil {
+						xs = []N{}
+					}
+					return N{"k": "arr", "xs": xs, "pp": false}
+				}
+				one := N{"k": "dict", "kv": []N{{"key": N{"k": "str", "c": []string{"k"}, "q": 1, "pp": false}, "val": lit(1)}}, "pp": false}
+				vals := []N{arr(lit(1), lit(2)), arr(), arr(arr(lit(7)), lit(0)), one, arr(one), N{"k": "str", "c": []string{"a", "LB", "b"}, "q": 1, "pp": false}}
+				sid := 920000
+				for _, v := range vals {
+					for style := 3; style <= 4; style++ {
+						asg := st(N{"k": "assign", "n": "x", "e": v, "pp": false})
+						shapes := [][]N{
+							{hole(false, st(vr("x"))), litp("SP", "a", "SP"), hole(false, st(vr("x")))},
+							{hole(false, st(vr("x"))), hole(false, st(vr("x"))), hole(false, st(vr("x")))},
+							{litp("a"), hole(false, st(vr("x"))), litp("-"), hole(false, st(arr(vr("x"), lit(0))))},
+							{hole(false, st(arr(vr("x"), vr("x")))), litp("b"), hole(true, st(vr("x")))},
+						}
+						for _, parts := range shapes {
+							sid++
+							w.Write(N{"id": sid, "cfg": N{"div0": false, "mode": -1, "fuel": 40, "loopmax": 12}, "faces": []int{},
+								"progs": [][]N{{asg, st(N{"k": "tmpl", "q": style, "pp": false, "parts": parts})}}})
+						}
+						// assigned in a block hole, shown in later ones
+						sid++
+						w.Write(N{"id": sid, "cfg": N{"div0": false, "mode": -1, "fuel": 40, "loopmax": 12}, "faces": []int{},
+							"progs": [][]N{{st(N{"k": "tmpl", "q": style, "pp": false, "parts": []N{litp("a"), hole(true, asg), litp("c"), hole(false, st(vr("x"))), litp("d"), hole(false, st(vr("x")))}})}}})
+					}
+				}
+			}
 			// nesting depth around the limit: accepted-and-correct or rejected, never wrong
 			for depth := 1; depth <= 23; depth++ {
 				var e N = N{"k": "int", "v": 1, "pp": false}
@@ -683,6 +719,77 @@ func init() {
 				emit(N{"k": "un", "op": "-", "e": mk(o1, lit("2"), lit("3")), "pp": false}, false)
 				emit(mk(o1, N{"k": "un", "op": "-", "e": lit("2"), "pp": false}, lit("2")), false)
 				emit(N{"k": "tern", "c": mk(o1, lit("1"), lit("0")), "a": mk(o2, lit("2"), lit("3")), "b": lit("7"), "pp": false}, false)
+			}
+		}
+		// fresh or alias: every operation that yields an array or a dict from a variable, followed by a mutation of one side
+		// and a read of both - the semantics say for each operation whether the result is a new object
+		iv := func(v int) N { return N{"k": "int", "v": v, "pp": false} }
+		vr := func(n string) N { return N{"k": "var", "n": n, "pp": false} }
+		arrOf := func(n int) N {
+			xs := []N{}
+			for k := 1; k <= n; k++ {
+				xs = append(xs, iv(k))
+			}
+			return N{"k": "arr", "xs": xs, "pp": false}
+		}
+		stmt := func(e N) N { return N{"k": "expr", "e": e} }
+		asg := func(n string, e N) N { return stmt(N{"k": "assign", "n": n, "e": e, "pp": false}) }
+		bin := func(op string, l, r N) N { return N{"k": "bin", "op": op, "l": l, "r": r, "pp": false} }
+		null := N{"k": "null", "pp": false}
+		producers := map[string]func() N{
+			"alias":    func() N { return vr("u") },
+			"concat0":  func() N { return bin("+", vr("u"), arrOf(0)) },
+			"concat1":  func() N { return bin("+", vr("u"), N{"k": "arr", "xs": []N{iv(9)}, "pp": false}) },
+			"0concat":  func() N { return bin("+", arrOf(0), vr("u")) },
+			"times1":   func() N { return bin("*", vr("u"), iv(1)) },
+			"sliceAll": func() N { return N{"k": "slice", "o": vr("u"), "a": null, "b": null, "pp": false} },
+			"slice02":  func() N { return N{"k": "slice", "o": vr("u"), "a": iv(0), "b": iv(2), "pp": false} },
+			"paren":    func() N { return N{"k": "tern", "c": iv(1), "a": vr("u"), "b": arrOf(1), "pp": false} },
+			"coalesce": func() N { return bin("??", vr("u"), iv(1)) },
+			"wrapIdx": func() N {
+				return N{"k": "idx", "o": N{"k": "arr", "xs": []N{vr("u")}, "pp": false}, "i": iv(0), "pp": false}
+			},
+		}
+		mutations := map[string]func(t string) []N{
+			"setIdx": func(t string) []N {
+				return []N{stmt(N{"k": "assignIdx", "o": vr(t), "i": iv(0), "e": iv(99), "pp": false})}
+			},
+			"push": func(t string) []N {
+				return []N{stmt(N{"k": "mcall", "o": vr(t), "m": "push", "args": []N{iv(7)}, "pp": false})}
+			},
+			"pop": func(t string) []N {
+				return []N{stmt(N{"k": "mcall", "o": vr(t), "m": "pop", "args": []N{}, "pp": false})}
+			},
+			"poppush": func(t string) []N {
+				return []N{stmt(N{"k": "mcall", "o": vr(t), "m": "pop", "args": []N{}, "pp": false}), stmt(N{"k": "mcall", "o": vr(t), "m": "push", "args": []N{iv(8)}, "pp": false})}
+			},
+		}
+		pnames := []string{"alias", "concat0", "concat1", "0concat", "times1", "sliceAll", "slice02", "paren", "coalesce", "wrapIdx"}
+		mnames := []string{"setIdx", "push", "pop", "poppush"}
+		for _, n := range []int{1, 2, 3, 5, 6} {
+			for _, pn := range pnames {
+				for _, mn := range mnames {
+					for _, side := range []string{"u", "w"} {
+						prog := []N{asg("u", arrOf(n)), asg("w", producers[pn]())}
+						prog = append(prog, mutations[mn](side)...)
+						prog = append(prog, stmt(N{"k": "arr", "xs": []N{vr("u"), vr("w")}, "pp": false}))
+						id++
+						w.Write(N{"id": id, "cfg": N{"div0": false, "mode": -1, "fuel": 10, "loopmax": 5}, "faces": []int{}, "progs": [][]N{prog}})
+					}
+				}
+				// two results from one source, then both read (shared spare capacity)
+				for _, pn2 := range []string{"concat1", "sliceAll", "times1"} {
+					prog := []N{asg("u", arrOf(n)), stmt(N{"k": "mcall", "o": vr("u"), "m": "pop", "args": []N{}, "pp": false}), asg("w", producers[pn]()), asg("z", producers[pn2]()),
+						stmt(N{"k": "mcall", "o": vr("w"), "m": "push", "args": []N{iv(6)}, "pp": false}), stmt(N{"k": "mcall", "o": vr("z"), "m": "push", "args": []N{iv(7)}, "pp": false}),
+						stmt(N{"k": "arr", "xs": []N{vr("u"), vr("w"), vr("z")}, "pp": false})}
+					id++
+					w.Write(N{"id": id, "cfg": N{"div0": false, "mode": -1, "fuel": 10, "loopmax": 5}, "faces": []int{}, "progs": [][]N{prog}})
+					// and across programs of one history
+					hist := [][]N{{asg("u", arrOf(n)), stmt(N{"k": "mcall", "o": vr("u"), "m": "pop", "args": []N{}, "pp": false}), asg("w", producers[pn]())}, {asg("z", producers[pn2]())},
+						{stmt(N{"k": "arr", "xs": []N{vr("u"), vr("w"), vr("z")}, "pp": false})}}
+					id++
+					w.Write(N{"id": id, "cfg": N{"div0": false, "mode": -1, "fuel": 10, "loopmax": 5}, "faces": []int{}, "progs": hist})
+				}
 			}
 		}
 		emitSummary(N{"histories": id})
